@@ -588,6 +588,7 @@ func reachesLastScriptRange() bool {
 // ---- corpus enumerator -------------------------------------------------------------------------
 
 type corpusCase struct {
+	Scan  bool           `json:"directory_scan,omitempty"` // found by the directory scan of the whole corpus
 	File  string         `json:"file"`
 	Index int            `json:"index"`
 	Type  string         `json:"cmap_type,omitempty"`
@@ -693,6 +694,9 @@ func TestPropCorpus(t *testing.T) {
 		}
 		footprintLoaderCheck(t, file, faces)
 	}
+	if shard == 0 {
+		scanCorpusCheck(t)
+	}
 	ev.CaseEnum(total, nt)
 }
 
@@ -709,12 +713,17 @@ func replayFile(t *testing.T, path string) {
 		if err := json.Unmarshal(raw, &c); err != nil {
 			t.Fatalf("%s: %v", path, err)
 		}
-		faces, err := corpus.Faces(c.File)
-		if err != nil || c.Index >= len(faces) {
-			t.Fatalf("%s: cannot load %s[%d]: %v", path, c.File, c.Index, err)
+		if c.File != "" {
+			faces, err := corpus.Faces(c.File)
+			if err != nil || c.Index >= len(faces) {
+				t.Fatalf("%s: cannot load %s[%d]: %v", path, c.File, c.Index, err)
+			}
+			checkCorpusFace(t, c.File, c.Index, faces[c.Index])
+			footprintLoaderCheck(t, c.File, faces)
 		}
-		checkCorpusFace(t, c.File, c.Index, faces[c.Index])
-		footprintLoaderCheck(t, c.File, faces)
+		if c.Scan {
+			scanCorpusCheck(t)
+		}
 	case "synth":
 		var c synthCase
 		if err := json.Unmarshal(raw, &c); err != nil {
